@@ -177,6 +177,10 @@ def unsplit_netloc(username, password, hostname, port):
     else:
         auth = None
 
+    # NOTE: IPv6 hosts must be written back between brackets
+    if hostname and ":" in hostname:
+        hostname = "[" + hostname + "]"
+
     if auth:
         hostname = auth + "@" + hostname
     if port:
